@@ -21,6 +21,16 @@ def _alarm(signum, frame):
 
 
 def with_timeout(fn, secs, *a, **kw):
+    """fn(*a, **kw) under a wall-clock watchdog.  The clock also runs while the machine
+    stalls (sixteen workers, garbage collection): a first expiry is tried again with six
+    times the limit, so that only a call that really does not return is reported."""
+    try:
+        return _with_timeout(fn, secs, *a, **kw)
+    except Timeout:
+        return _with_timeout(fn, secs * 6, *a, **kw)
+
+
+def _with_timeout(fn, secs, *a, **kw):
     old = signal.signal(signal.SIGALRM, _alarm)
     signal.setitimer(signal.ITIMER_REAL, secs)
     try:
